@@ -82,13 +82,72 @@ class FactoryError(Exception):
     pass
 
 
+ENTRY_POINTS = ["_builder", "from_", "into", "update", "select", "with_"]
+QUERY_CLASSES = {"QueryBuilder": "Query", "MySQLQueryBuilder": "MySQLQuery", "VerticaQueryBuilder": "VerticaQuery",
+                 "OracleQueryBuilder": "OracleQuery", "PostgreSQLQueryBuilder": "PostgreSQLQuery",
+                 "RedShiftQueryBuilder": "RedshiftQuery", "MSSQLQueryBuilder": "MSSQLQuery",
+                 "ClickHouseQueryBuilder": "ClickHouseQuery", "SQLLiteQueryBuilder": "SQLLiteQuery",
+                 "SnowflakeQueryBuilder": "SnowflakeQuery"}
+
+
+def parse_kind(kind):
+    """'[mutable:]Kind[@entry][?opt=val&...]' -> (Kind, entry or None, {opt: value});  mutable: == ?immutable=False"""
+    opts = {}
+    if kind.startswith("mutable:"):
+        kind = kind[8:]
+        opts["immutable"] = False
+    if "?" in kind:
+        kind, q = kind.split("?", 1)
+        for kv in q.split("&"):
+            k, v = kv.split("=")
+            opts[k] = {"True": True, "False": False}[v]
+    entry = None
+    if "@" in kind:
+        kind, entry = kind.split("@", 1)
+    return kind, entry, opts
+
+
+def strip_immutable(kind):
+    """the same constructor call without immutable=False (the immutable twin)"""
+    base, entry, opts = parse_kind(kind)
+    opts.pop("immutable", None)
+    out = base + ("@" + entry if entry else "")
+    if opts:
+        out += "?" + "&".join("%s=%s" % kv for kv in sorted(opts.items()))
+    return out
+
+
+def query_entry(base, entry, opts):
+    """a query builder obtained through one of the public entry points of its Query class, with constructor options"""
+    import pypika
+    import pypika.dialects as d
+    qn = QUERY_CLASSES[base]
+    Q = getattr(pypika, qn, None) or getattr(d, qn)
+    if entry == "_builder":
+        return Q._builder(**opts)
+    if entry == "from_":
+        return Q.from_("t0", **opts)
+    if entry == "into":
+        return Q.into("t0", **opts)
+    if entry == "update":
+        return Q.update("t0", **opts)
+    if entry == "select":
+        return Q.select(1, **opts)
+    if entry == "with_":
+        return Q.with_(pypika.Query.from_("w0").select("x"), "w", **opts)
+    raise FactoryError("unknown entry point " + entry)
+
+
 def factory(kind):
     global _FACT
     if _FACT is None:
         _FACT = _factories()          # an import problem here is a harness/plugin failure, never a skipped step
-    if kind not in _FACT:
-        raise FactoryError("unknown factory " + kind)
-    return _FACT[kind]()
+    if kind in _FACT:
+        return _FACT[kind]()
+    base, entry, opts = parse_kind(kind)
+    if base in QUERY_CLASSES and (entry or opts):
+        return query_entry(base, entry or "_builder", opts)
+    raise FactoryError("unknown factory " + kind)
 
 
 def factory_kinds():
